@@ -63,6 +63,8 @@ def answer (toks : List String) : String :=
   | ["xmatrix", rnd, dim, mv, e, eps] =>
       let emb := xMat e
       s!"{showBoolMat (fixedThresholdX (rndOf rnd) emb (x? eps) dim.toNat! (mv == "1"))} {showBools (missingMaskX emb)}"
+  -- round 5: the rounding itself, `|a - b|` of the pairs (or of `q - 0`) rounded to binary64
+  | ["rnd64", d] => showRats ((pairs d).map fun (a, b) => rnd64 (if a ≤ b then b - a else a - b))
   -- the hand model (round 1), kept executable
   | ["hand", "vertline", n, r] => showNats (LineDist.vertline (boolMat r) n.toNat!)
   | ["hand", "whitevertline", n, r] => showNats (LineDist.whiteVertline (boolMat r) n.toNat!)
